@@ -86,6 +86,7 @@ theorem step_failBind_mem (s : Sys F) (e : Ev) (a : Nat) (h : a ∈ (step s e).1
     · right; rw [e]
     · left; exact e
   | stamp idx weak ld ccb cct => left; exact h
+  | syncTimeout => left; exact h
 
 /-! ## 2. Conn ids stay where they are -/
 
@@ -322,5 +323,6 @@ theorem step_reg_idle (s : Sys F) (e : Ev) (h : RegIdle s.reg)
   | failNext cid => exact h
   | failBind cid => exact h
   | stamp idx weak ld ccb cct => exact h
+  | syncTimeout => exact h
 
 end Srtla.Hk
